@@ -8,7 +8,7 @@ state, so trace validation never has to guess a variable."""
 import copy
 import warnings
 
-from .build import Model, TRULE
+from .build import Model, RankedTask, TRULE
 from .observe import Projector
 
 
@@ -28,7 +28,8 @@ class Recorder:
         if not self.light:
             e = {"ph": phase, "st": self.proj.state(), "inexact": sorted(set(self.proj.inexact))}
             if "task" in info:
-                e["task"] = self.model.tix.get(id(info["task"]), 0)
+                tasks, _ = self.proj.tasks()
+                e["task"] = ([i for i, t in enumerate(tasks, 1) if t is info["task"]] or [0])[0]
             else:
                 e["task"] = 0
             e["working"] = bool(info.get("working", True))
@@ -97,7 +98,8 @@ def run_simulate(model, opts=None, init_state=True, init_log=True, abort_at=None
     ev, ret = call_recorded(model, lambda: model.project.simulate(**kw), abort_at=abort_at)
     o2 = copy.deepcopy(o)
     o2["initState"], o2["initLog"] = init_state, init_log
-    return {"op": "simulate", "opts": o2, "ev": annotate(ev), "ret": ret, "final": snapshot(model)}
+    return {"op": "simulate", "opts": o2, "args": {"cmp": 0}, "obs": {}, "ev": annotate(ev), "ret": ret,
+            "final": snapshot(model)}
 
 
 def run_case_simulate(cfg):
@@ -112,6 +114,8 @@ def run_case(spec):
     if kind == "simulate":
         m = Model(cfg)
         runs = [run_simulate(m)]
+    elif kind == "history":
+        return run_history(spec)
     elif kind == "sort":
         from . import funs
         c2 = dict(cfg)
@@ -119,4 +123,173 @@ def run_case(spec):
         return {"cfg": c2, "runs": [funs.run_sort(spec)], "spec": spec}
     else:
         raise ValueError("unknown case kind %r" % kind)
+    return {"cfg": cfg, "runs": runs, "spec": spec}
+
+
+# =========================================================================================
+# histories: sequences of API operations on one (or a rebuilt / restored) project
+# =========================================================================================
+import json as _json
+import os as _os
+import tempfile as _tempfile
+
+from .build import from_project
+from .observe import Projector as _Projector
+
+
+def _struct(model):
+    return _Projector(model).structure()
+
+
+def _json_roundtrip(model, workdir):
+    """write_simple_json -> read_simple_json into a fresh project -> write again.
+    Returns (new_model, observations)."""
+    from pDESy.model.base_project import BaseProject
+
+    obs = {"write_ok": True, "read_ok": True, "fixpoint": False, "xref_ok": False, "err": ""}
+    p1 = _os.path.join(workdir, "a.json")
+    p2 = _os.path.join(workdir, "b.json")
+    try:
+        model.project.write_simple_json(p1)
+    except Exception as e:
+        obs.update(write_ok=False, read_ok=False, err="write:" + type(e).__name__)
+        return None, obs
+    np_ = BaseProject()
+    try:
+        np_.read_simple_json(p1)
+    except Exception as e:
+        obs.update(read_ok=False, err="read:" + type(e).__name__)
+        return None, obs
+    try:
+        np_.write_simple_json(p2)
+        with open(p1) as f1, open(p2) as f2:
+            obs["fixpoint"] = _json.load(f1) == _json.load(f2)
+    except Exception as e:
+        obs["err"] = "rewrite:" + type(e).__name__
+    m2 = from_project(model.cfg, np_)
+    obs["xref_ok"] = _xrefs_ok(m2)
+    return m2, obs
+
+
+def _xrefs_ok(m):
+    """Every cross reference of the restored project is an object of that project."""
+    p = m.project
+    tasks = {id(t) for t in p.workflow.task_list}
+    comps = {id(c) for c in p.product.component_list}
+    teams = {id(t) for t in p.organization.team_list}
+    wps = {id(w) for w in p.organization.workplace_list}
+    workers = {id(w) for t in p.organization.team_list for w in t.worker_list}
+    facs = {id(f) for w in p.organization.workplace_list for f in w.facility_list}
+    try:
+        for t in p.workflow.task_list:
+            ok = (all(id(x) in tasks for x, _ in t.input_task_list)
+                  and all(id(x) in tasks for x, _ in t.output_task_list)
+                  and all(id(x) in teams for x in t.allocated_team_list)
+                  and all(id(x) in wps for x in t.allocated_workplace_list)
+                  and (t.target_component is None or id(t.target_component) in comps)
+                  and all(id(x) in workers for x in t.allocated_worker_list)
+                  and all(id(x) in facs for x in t.allocated_facility_list))
+            if not ok:
+                return False
+        for c in p.product.component_list:
+            ok = (all(id(x) in comps for x in c.parent_component_list)
+                  and all(id(x) in comps for x in c.child_component_list)
+                  and all(id(x) in tasks for x in c.targeted_task_list)
+                  and (c.placed_workplace is None or id(c.placed_workplace) in wps))
+            if not ok:
+                return False
+        for t in p.organization.team_list:
+            if not all(id(x) in tasks for x in t.targeted_task_list):
+                return False
+            for w in t.worker_list:
+                if not all(id(x) in tasks for x in w.assigned_task_list):
+                    return False
+        for w in p.organization.workplace_list:
+            if not (all(id(x) in tasks for x in w.targeted_task_list)
+                    and all(id(x) in comps for x in w.placed_component_list)):
+                return False
+            for f in w.facility_list:
+                if not all(id(x) in tasks for x in f.assigned_task_list):
+                    return False
+    except Exception:
+        return False
+    return True
+
+
+def run_history(spec):
+    """spec: {"kind": "history", "cfg", "ops": [...], "plain": bool}.  Every op yields one run
+    record; `final` is the snapshot after the op, so consecutive runs chain."""
+    cfg = spec["cfg"]
+    plain = bool(spec.get("plain"))
+    m = Model(cfg, plain=plain)
+    runs = []
+    tmp = None
+    base_opts = dict(cfg["opts"])
+    for op in spec["ops"]:
+        kind = op["op"]
+        o = dict(base_opts)
+        o.update(op.get("opts") or {})
+        o["initState"] = bool(op.get("initState", True))
+        o["initLog"] = bool(op.get("initLog", True))
+        rec = {"op": kind, "opts": o, "args": {k: v for k, v in op.items() if k not in ("op", "opts")},
+               "ev": [], "ret": "ok", "obs": {}}
+        rec["args"].setdefault("cmp", 0)
+        rec["args"]["plainTasks"] = not isinstance(m.tasks[0], RankedTask) if m.tasks and m.tasks[0] is not None else True
+        if "ranks" in op:
+            for t, r in zip(m.tasks, op["ranks"]):
+                t._verif_rank = r
+        light = bool(op.get("light"))
+        if kind == "rebuild":
+            m = Model(cfg, plain=bool(op.get("plain", plain)))
+        elif kind == "snapshot":
+            pass
+        elif kind == "simulate":
+            kw = dict(task_priority_rule=TRULE[o["rule"]], absence_time_list=list(o["absL"]),
+                      perform_auto_task_while_absence_time=o["autoAbs"], max_time=o["maxTime"],
+                      initialize_state_info=o["initState"], initialize_log_info=o["initLog"])
+            ev, ret = call_recorded(m, lambda: m.project.simulate(**kw), light=light)
+            rec["ev"], rec["ret"] = ([] if light else annotate(ev)), ret
+        elif kind == "backward":
+            kw = dict(task_priority_rule=TRULE[o["rule"]], absence_time_list=list(o["absL"]),
+                      perform_auto_task_while_absence_time=o["autoAbs"], max_time=o["maxTime"],
+                      considering_due_time_of_tail_tasks=bool(op.get("due")),
+                      reverse_log_information=bool(op.get("reverse", True)))
+            s0, i0 = _struct(m)
+            ab = tuple(op["abortAt"]) if op.get("abortAt") else None
+            ev, ret = call_recorded(m, lambda: m.project.backward_simulate(**kw), abort_at=ab, light=light)
+            s1, i1 = _struct(m)
+            rec["ev"], rec["ret"] = ([] if light else annotate(ev)), ret
+            rec["obs"] = {"struct_before": s0, "struct_after": s1, "same_lists": i0 == i1,
+                          "nphases": len(ev)}
+        elif kind == "initialize":
+            ev, ret = call_recorded(m, lambda: m.project.initialize(state_info=bool(op.get("state", True)),
+                                                                    log_info=bool(op.get("log", True))))
+            rec["ret"] = ret
+        elif kind == "reverse":
+            ev, rec["ret"] = call_recorded(m, lambda: m.project.reverse_log_information())
+        elif kind == "remove_absence":
+            ev, rec["ret"] = call_recorded(m, lambda: m.project.remove_absence_time_list())
+        elif kind == "insert_absence":
+            L = list(op["L"])
+            ev, rec["ret"] = call_recorded(m, lambda: m.project.insert_absence_time_list(L))
+        elif kind == "saveload":
+            if tmp is None:
+                tmp = _tempfile.mkdtemp(prefix="pdesy-json-")
+            from .observe import extract_params
+            before = extract_params(m)
+            m2, obs = _json_roundtrip(m, tmp)
+            obs["params_before"] = before
+            obs["params_after"] = extract_params(m2) if m2 is not None else {k: "" for k in before}
+            rec["obs"] = obs
+            if m2 is not None:
+                m = m2
+            else:
+                rec["ret"] = "exc:" + obs["err"]
+        else:
+            raise ValueError("unknown op %r" % kind)
+        rec["final"] = snapshot(m)
+        runs.append(rec)
+    if tmp is not None:
+        import shutil
+        shutil.rmtree(tmp, ignore_errors=True)
     return {"cfg": cfg, "runs": runs, "spec": spec}
